@@ -435,3 +435,8 @@ mod tests {
         }
     }
 }
+
+#[cfg(kani)]
+mod verif_kani {
+    include!(concat!(env!("IPA_VERIF_DIR"), "/kani/top.rs"));
+}
